@@ -79,8 +79,11 @@ def check_circuit(nq, seq):
         i0, i1 = sec.index
         sl = list(range(i0, i1))
         non_nop = [i for i in sl if kinds[i] != "barrier"]
-        if non_nop != pos or (sl and sl[0] != pos[0]) or not (0 <= i0 <= i1 <= len(seq)):
-            return dict(observed=f"section index {sec.index} covers gate positions {non_nop}", expected=f"exactly the gates at {pos}, starting at {pos[0]}")
+        # "covers exactly those gates": from the first classical gate of the run to just after its last one (barriers INSIDE the run are ignored;
+        # a barrier before the first or after the last gate is not one of "those gates")
+        if non_nop != pos or (sl and (sl[0] != pos[0] or sl[-1] != pos[-1])) or not (0 <= i0 <= i1 <= len(seq)):
+            return dict(observed=f"section index {sec.index} covers gate positions {non_nop}" + (f" and ends after position {sl[-1]}" if sl else ""),
+                        expected=f"exactly the gates at {pos}: range ({pos[0]}, {pos[-1] + 1})")
         sg = [(type(g).__name__, list(w)) for g, w, p in sec.gates]
         if sg != [(seq[i][0], list(seq[i][1])) for i in pos]:
             return dict(observed=f"section.gates = {sg}", expected=[(seq[i][0], list(seq[i][1])) for i in pos])
